@@ -42,7 +42,7 @@ template<int TI> void j_int_to_fixed(Ctx & c, int64_t nraw, int64_t light, int64
       {
       CallRes r = c.call(f->f[ci], 0, nraw);
       if(r.sig) { c.signal_event((int)ci, f->entry.c_str(), 0, nraw, r.sig); continue; }
-      judge(*f, ci, r.v, true);
+      judge(*f, ci, r.v, false); // out of range: the promoted operand is NaN and 0 + NaN is NaN
       }
     if((TI == 3 || TI == 8) && n >= 0)
       {
